@@ -35,14 +35,16 @@ Fixpoint chk_cmds (lay : layout) (m : fs) (sel : selection)
       let o := run_cmd lay m sel c in
       let '(m', ok) := apply_ops lay m (o_ops o) in
       eqb_list fsop_eqb (o_ops o) ops && ack_eqb (o_ack o) a && ok
-      (* every operation is of a legal kind in its state (the renames of folder
-         directories of RENAME are outside the proved transition system) *)
-      && (is_rename c || legal_ops_b lay m (o_ops o))
+      (* every operation is of a legal kind in the state it is applied to
+         (proved for every command in CommandProofs.v; re-evaluated here) *)
+      && legal_ops_b lay m (o_ops o)
       && chk_cmds lay m' (o_sel o) r final
   end.
 
+(* the directory the real backend starts from (and ends with) satisfies the
+   invariant the theorems assume (LegalProofs.inv_b_sound) *)
 Definition chk_history (c : layout * fs * list (cmd * list fsop * ack) * fs) : bool :=
-  let '(lay, m, l, final) := c in chk_cmds lay m None l final.
+  let '(lay, m, l, final) := c in inv_b m && inv_b final && chk_cmds lay m None l final.
 
 (* index of the first command on which model and trace differ (diagnosis) *)
 Fixpoint first_bad (lay : layout) (m : fs) (sel : selection)
@@ -53,7 +55,7 @@ Fixpoint first_bad (lay : layout) (m : fs) (sel : selection)
       let o := run_cmd lay m sel c in
       let '(m', ok) := apply_ops lay m (o_ops o) in
       if eqb_list fsop_eqb (o_ops o) ops && ack_eqb (o_ack o) a && ok
-         && (is_rename c || legal_ops_b lay m (o_ops o))
+         && legal_ops_b lay m (o_ops o)
       then first_bad lay m' (o_sel o) r (S i)
       else Some (i, o_ops o, o_ack o)
   end.
@@ -147,7 +149,7 @@ Definition chk_crash (c : layout * fs * list cmd * list (nat * bool * odump)) : 
   forallb (fun kd : (nat * bool * odump)%type =>
     let '(k, aged, d) := kd in
     let '(m, ok) := apply_ops lay m0 (crash k ops) in
-    ok && chk_dump (if aged then expire_locks m else m) d) l.
+    ok && inv_b m && chk_dump (if aged then expire_locks m else m) d) l.
 
 (* a plain snapshot against a dump *)
 Definition chk_snapshot (c : fs * odump) : bool := chk_dump (fst c) (snd c).
